@@ -1335,6 +1335,65 @@ def evalTop (now : Nat) (fuel : Nat) (docs : List Forest) (eng : Engine) : Outco
     guard, for every program): one level per statement plus the document variables -/
 def defaultFuel (docs : List Forest) (eng : Engine) : Nat := eng.length + docs.length + 2
 
+/-! ### the menu against the reflected method tables
+
+  `Generated.Query.methods` lists every method reflection finds on every receiver type (regenerated
+  on each run).  `menuHas` asks `callMenu` itself (on a probe receiver of the type) whether it
+  evaluates the method; `outsideMenu` is the explicit list of niladic methods with a result that the
+  model leaves to the direct oracle, with the reason.  `C15.menu_classifies_reflected_methods`:
+  every reflected niladic method is in one of the two — a new exported method of a node type
+  fails that obligation until it is modelled or declared — and no declaration is stale. -/
+
+def tagOfKind (recv : String) : Str :=
+  match Generated.kindTable.find? (fun e => e.2 == recv) with
+  | some e => ascii e.1
+  | none => ascii "ZZ"
+
+def probeVal (recv : String) : Val :=
+  if recv == "Document" then .doc 0
+  else if recv == "Tag" then .tag []
+  else if recv == "Date" then .date zeroDate false
+  else .node 0 (.mk (tagOfKind recv) [] [] [])
+
+def menuHas (recv m : String) : Bool := (callMenu 0 [] recv m (probeVal recv)).isSome
+
+def outsideMenu : List (String × String) := [
+  ("Places", "map keyed by node pointers"),
+  ("Warnings", "gedcom.Warning values"),
+  ("Time", "time.Time"),
+  ("MarshalJSON", "[]byte of the JSON text"),
+  ("Family", "the family a HUSB/WIFE/CHIL node belongs to (parent link)"),
+  ("Father", "parent link"),
+  ("Mother", "parent link"),
+  ("DateRange", "gedcom.DateRange struct (unexported fields)"),
+  ("ShallowCopy", "IndividualNode / FamilyNode: adds the copy to the document"),
+  ("Age", "gedcom.Age struct"),
+  ("Children", "IndividualNode: children over all families"),
+  ("FamilySearchIDs", "tags from FamilySearchIDNodeTags"),
+  ("FamilyWithUnknownSpouse", "family lookup"),
+  ("SpouseChildren", "map"),
+  ("UniqueIdentifiers", "*StringSet"),
+  ("GedcomName", "NameNode.Format"),
+  ("Type", "NameType, a named string type"),
+  ("Checksum", "UUID arithmetic"),
+  ("UUID", "gedcom.UUID")]
+
+/-- niladic (callable from a query) with at least one result -/
+def callable (m : String × Nat × Nat × Ty) : Bool := m.2.1 == 0 && m.2.2.1 != 0
+
+def menuClassified : Bool :=
+  Generated.Query.methods.all (fun e => e.2.all (fun m =>
+    !callable m || menuHas e.1 m.1 || outsideMenu.any (·.1 == m.1)))
+
+def outsideMenuExact : Bool :=
+  outsideMenu.all (fun o => Generated.Query.methods.any (fun e => e.2.any (fun m =>
+    m.1 == o.1 && callable m && !menuHas e.1 m.1)))
+
+/-- how many callable methods the tables list, and how many of them the menu evaluates -/
+def menuCounts : Nat × Nat :=
+  let all := Generated.Query.methods.flatMap (fun e => (e.2.filter callable).map (fun m => (e.1, m.1)))
+  (all.length, (all.filter (fun p => menuHas p.1 p.2)).length)
+
 /-! ### JSON and the formatters -/
 
 inductive J where
